@@ -9,23 +9,25 @@
 /* the record returned is the reference-best element or an element tied with it, and carries the reference time */
 #define G18L_IS_BEST(p) (((p) == &g18l_rec[g18l_best] || (p) == &g18l_rec[g18l_alt]) && (p)->publishedData->time->value == g18l_ref.best)
 
+/* postconditions as macros: used by the ensures clauses below and, for the two lookups that are checked by bounded
+ * unwinding (see obligations/C18/NOTES.md), by the harness assertions */
+#define NEAREST_POST(ret, out) ((ret) == KSI_OK && g18l_calls == g18l_len && IFF((out) == NULL, !g18l_ref.has) && IMPLIES((out) != NULL, G18L_IS_BEST(out) && (out)->ref == 2))
+#define LATEST_POST(ret, out)  ((ret) == KSI_OK && g18l_calls == g18l_len && IFF((out) == NULL, !g18l_ref.has) && IMPLIES((out) != NULL, G18L_IS_BEST(out) && (out)->ref == 1))
+
 int KSI_PublicationsFile_getNearestPublication(const KSI_PublicationsFile *trust, const KSI_Integer *pubTime, KSI_PublicationRecord **pubRec)
 __CPROVER_requires(trust != NULL && trust->publications == &g18l_list && pubTime != NULL && pubTime->value == g18l_t && g18l_have_t)
 __CPROVER_requires(__CPROVER_is_fresh(pubRec, sizeof(*pubRec)) && G18L_START(0))
 __CPROVER_requires(g18l_rec[0].ref == 1 && g18l_rec[1].ref == 1 && g18l_rec[2].ref == 1)
-__CPROVER_ensures(__CPROVER_return_value == KSI_OK && g18l_calls == g18l_len)
 /* none not before t  <=>  NULL;  otherwise a record with the EARLIEST time >= t, returned with one more reference */
-__CPROVER_ensures(IFF(*pubRec == NULL, !g18l_ref.has))
-__CPROVER_ensures(IMPLIES(*pubRec != NULL, G18L_IS_BEST(*pubRec) && (*pubRec)->ref == 2))
+__CPROVER_ensures(NEAREST_POST(__CPROVER_return_value, *pubRec))
 __CPROVER_assigns(*pubRec, g18l_calls, g18l_ref, g18l_best, g18l_alt, g18l_match_calls, __CPROVER_object_whole(g18l_tm), g18l_rec[0].ref, g18l_rec[1].ref, g18l_rec[2].ref);
 
 int KSI_PublicationsFile_getLatestPublication(const KSI_PublicationsFile *trust, const KSI_Integer *pubTime, KSI_PublicationRecord **pubRec)
 __CPROVER_requires(trust != NULL && trust->publications == &g18l_list && IFF(pubTime != NULL, g18l_have_t) && IMPLIES(pubTime != NULL, pubTime->value == g18l_t))
 __CPROVER_requires(__CPROVER_is_fresh(pubRec, sizeof(*pubRec)) && G18L_START(1))
-__CPROVER_ensures(__CPROVER_return_value == KSI_OK && g18l_calls == g18l_len)
+__CPROVER_requires(g18l_rec[0].ref == 1 && g18l_rec[1].ref == 1 && g18l_rec[2].ref == 1)
 /* no candidate <=> NULL; otherwise a record with the LATEST time (among those >= t when a time is given); borrowed pointer */
-__CPROVER_ensures(IFF(*pubRec == NULL, !g18l_ref.has))
-__CPROVER_ensures(IMPLIES(*pubRec != NULL, G18L_IS_BEST(*pubRec)))
+__CPROVER_ensures(LATEST_POST(__CPROVER_return_value, *pubRec))
 __CPROVER_assigns(*pubRec, g18l_calls, g18l_ref, g18l_best, g18l_alt, g18l_match_calls, __CPROVER_object_whole(g18l_tm));
 
 int KSI_PublicationsFile_getPublicationDataByTime(const KSI_PublicationsFile *trust, const KSI_Integer *pubTime, KSI_PublicationRecord **pubRec)
@@ -37,3 +39,4 @@ __CPROVER_ensures(IFF(*pubRec == NULL, !g18l_ref.has))
 __CPROVER_ensures(IMPLIES(*pubRec == NULL, g18l_calls == g18l_len))
 __CPROVER_ensures(IMPLIES(*pubRec != NULL, *pubRec == &g18l_rec[g18l_best] && (*pubRec)->publishedData->time->value == g18l_t && g18l_calls == g18l_match_calls))
 __CPROVER_assigns(*pubRec, g18l_calls, g18l_ref, g18l_best, g18l_alt, g18l_match_calls, __CPROVER_object_whole(g18l_tm));
+
